@@ -26,6 +26,7 @@ CONSTANTS
   VetoPool,   \* subset of BOOLEAN : arm the vetoing entity constraint for the call
   OpSysPool,  \* subset of BOOLEAN : the call is made with ctx.GetSystemContext() derived from the transaction's context
   PrePool,    \* subset of {"ok", "fail"} : pre-commit actions to add
+  WhereKinds, \* subset of {"all", "name", "grade"} : the filters DeleteWhere is called with
   CountPool,  \* counts for SetLinkCount
   MaxRc,      \* bound on a reference count (rcInc is not generated beyond it)
   IdOrder     \* the ids in the byte order of their real spellings (cascade visits referrers in this order)
@@ -82,6 +83,14 @@ TxUpdate(via, id, p, x, lt, fields, veto, osys) ==
 TxDelete(via, id, veto, osys) ==
   /\ "delete" \in Ops /\ InTx
   /\ Call(DeleteOp(db, txn.sys \/ osys, id, veto), [op |-> "delete", a |-> [via |-> via, id |-> id, veto |-> veto, osys |-> osys]])
+  /\ UNCHANGED ntx
+
+WherePool(via) == (IF "all" \in WhereKinds THEN {<<"all", "">>} ELSE {})
+                  \cup (IF "name" \in WhereKinds THEN {<<"name", v>> : v \in (NamePool \cup (IF IdNames THEN Ids ELSE {})) \ BadNames} ELSE {})
+                  \cup (IF "grade" \in WhereKinds /\ via = "staff" THEN {<<"grade", g>> : g \in GradePool} ELSE {})
+TxDeleteWhere(via, pred, osys) ==
+  /\ "deleteWhere" \in Ops /\ InTx
+  /\ Call(DeleteWhereOp(db, txn.sys \/ osys, via, pred, IdOrder), [op |-> "deleteWhere", a |-> [via |-> via, k |-> pred[1], v |-> pred[2], osys |-> osys]])
   /\ UNCHANGED ntx
 
 TxCreateTeam(t) ==
@@ -161,6 +170,7 @@ Next ==
   \/ \E via \in Vias, id \in Ids, lt \in LtPool, f \in FieldSets, veto \in VetoPool, os \in OpSysPool : \E p \in Persons(id) :
         \E x \in (IF via = "staff" THEN Exts ELSE {DummyExt}) : TxUpdate(via, id, p, x, lt, f, veto, os)
   \/ \E via \in Vias, id \in Ids, veto \in VetoPool, os \in OpSysPool : TxDelete(via, id, veto, os)
+  \/ \E via \in Vias, os \in OpSysPool : \E pr \in WherePool(via) : TxDeleteWhere(via, pr, os)
   \/ \E t \in Teams : TxCreateTeam(t) \/ \E os \in OpSysPool : TxDeleteTeam(t, os)
   \/ \E n \in {"addLinks", "removeLinks", "setLinks"}, p \in Ids, ts \in SUBSET Teams : TxLinks(n, p, ts)
   \/ \E n \in {"addLinks", "removeLinks", "setLinks"}, t \in Teams, ps \in SUBSET Ids : TxLinksT(n, t, ps)
